@@ -149,7 +149,9 @@ func decodeMapBodyInto(blob []byte, v reflect.Value, fields []mapBodyField) erro
 	}
 	for _, f := range fields {
 		raw, ok := raws[f.Name]
-		if !ok {
+		if !ok || len(raw) == 0 {
+			// Absent key, or a msgpack nil (a nil slice / map / pointer saved without
+			// omitempty decodes to an empty RawMessage): the field keeps its zero value.
 			continue
 		}
 		fv := v.Field(f.Index)
